@@ -704,11 +704,22 @@ const (
 
 // Format formats the node.
 func (node *Set) Format(buf *TrackedBuffer) {
-	if node.Scope == "" {
-		buf.Myprintf("set %v%v", node.Comments, node.Exprs)
-	} else {
-		buf.Myprintf("set %v%s %v", node.Comments, node.Scope, node.Exprs)
+	buf.Myprintf("set %v", node.Comments)
+	if node.Scope != "" {
+		buf.Myprintf("%s ", node.Scope)
 	}
+	if node.Exprs.areTransactionCharacteristics() {
+		// SET TRANSACTION has a form of its own: the keyword once, then nothing but characteristics.
+		buf.Myprintf("%s ", TransactionStr)
+		for i, expr := range node.Exprs {
+			if i > 0 {
+				buf.Myprintf(", ")
+			}
+			buf.Myprintf("%s", string(expr.Expr.(*SQLVal).Val))
+		}
+		return
+	}
+	buf.Myprintf("%v", node.Exprs)
 }
 
 func (node *Set) walkSubtree(visit Visit) error {
@@ -3983,14 +3994,44 @@ const (
 // Format formats the node.
 func (node *SetExpr) Format(buf *TrackedBuffer) {
 	// We don't have to backtick set variable names.
-	if node.Name.EqualString("charset") || node.Name.EqualString("names") {
+	// SET NAMES / SET CHARSET have a form of their own, but only for the values that form can produce: a variable
+	// that merely has such a name (set names = 1) is an ordinary assignment. SET TRANSACTION is printed by Set.
+	if (node.Name.EqualString("charset") || node.Name.EqualString("names")) && isCharsetValue(node.Expr) {
 		buf.Myprintf("%s %v", node.Name.String(), node.Expr)
-	} else if node.Name.EqualString(TransactionStr) {
-		sqlVal := node.Expr.(*SQLVal)
-		buf.Myprintf("%s %s", node.Name.String(), strings.ToLower(string(sqlVal.Val)))
 	} else {
 		buf.Myprintf("%s = %v", node.Name.String(), node.Expr)
 	}
+}
+
+func isCharsetValue(expr Expr) bool {
+	switch expr := expr.(type) {
+	case *Default:
+		return true
+	case *SQLVal:
+		return expr.Type == StrVal
+	}
+	return false
+}
+
+func (node SetExprs) areTransactionCharacteristics() bool {
+	for _, expr := range node {
+		if !expr.Name.EqualString(TransactionStr) || !isTransactionCharacteristic(expr.Expr) {
+			return false
+		}
+	}
+	return len(node) > 0
+}
+
+func isTransactionCharacteristic(expr Expr) bool {
+	val, ok := expr.(*SQLVal)
+	if !ok || val.Type != StrVal {
+		return false
+	}
+	switch string(val.Val) {
+	case IsolationLevelReadUncommitted, IsolationLevelReadCommitted, IsolationLevelRepeatableRead, IsolationLevelSerializable, TxReadOnly, TxReadWrite:
+		return true
+	}
+	return false
 }
 
 func (node *SetExpr) walkSubtree(visit Visit) error {
